@@ -501,7 +501,26 @@ func pkgGetters(p *packages.Package) map[*types.Func]string {
 func pkgSingleReturn(p *packages.Package) map[*types.Func]*ast.FuncDecl {
 	out := map[*types.Func]*ast.FuncDecl{}
 	for fn, fd := range pkgFuncs(p) {
-		if len(fd.Body.List) != 1 || fd.Type.Results == nil || fd.Type.Results.NumFields() != 1 {
+		if fd.Type.Results == nil || fd.Type.Results.NumFields() != 1 {
+			continue
+		}
+		// comma-ok predicates: '_, ok := m[k]' (or a type assertion) followed by 'return ok'
+		if len(fd.Body.List) == 2 {
+			as, ok1 := fd.Body.List[0].(*ast.AssignStmt)
+			rs, ok2 := fd.Body.List[1].(*ast.ReturnStmt)
+			if ok1 && ok2 && as.Tok == token.DEFINE && len(as.Lhs) == 2 && len(as.Rhs) == 1 && len(rs.Results) == 1 {
+				blank, okb := as.Lhs[0].(*ast.Ident)
+				okv, oko := as.Lhs[1].(*ast.Ident)
+				ret, okr := rs.Results[0].(*ast.Ident)
+				_, isIdx := ast.Unparen(as.Rhs[0]).(*ast.IndexExpr)
+				_, isTA := ast.Unparen(as.Rhs[0]).(*ast.TypeAssertExpr)
+				if okb && oko && okr && blank.Name == "_" && p.TypesInfo.Uses[ret] == p.TypesInfo.Defs[okv] && (isIdx || isTA) {
+					out[fn] = fd
+				}
+			}
+			continue
+		}
+		if len(fd.Body.List) != 1 {
 			continue
 		}
 		rs, ok := fd.Body.List[0].(*ast.ReturnStmt)
